@@ -59,6 +59,8 @@ type frame struct {
 }
 
 // engine-level control-flow panics (never visible to the target program)
+type notHandled struct{}
+
 type killG struct{}
 type abortRun struct {
 	kind string // "infeasible", "unsupported", "unwind", "engine", "assume", "done"
@@ -499,7 +501,13 @@ func callSSA(i *interpreter, caller *frame, callpos token.Pos, fn *ssa.Function,
 			if i.trace {
 				fmt.Fprintf(os.Stderr, "%sintrinsic %s\n", strings.Repeat(" ", fr.depth), name)
 			}
-			return in(fr, args)
+			if r := in(fr, args); r != (notHandled{}) {
+				return r
+			}
+			// the model declined (e.g. all-concrete arguments): interpret the real body
+			if fn.Blocks == nil {
+				panic(unsupported("no body for function " + name))
+			}
 		}
 		if fn.Blocks == nil {
 			if i.initing > 0 {
